@@ -259,6 +259,19 @@ func (w *World) VerifyFunc(key string) *Unit {
 	// preconditions
 	var props []string
 	if sp != nil {
+		for _, un := range sp.Uses {
+			found := false
+			for _, l := range w.Lemmas {
+				if l.Name == un {
+					vc.fact(w.lemmaStatement(vc, l))
+					vc.Assumed["lemma used (proved separately): "+un] = true
+					found = true
+				}
+			}
+			if !found {
+				vc.outside("uses unknown lemma %s", un)
+			}
+		}
 		props = sp.Props
 		env := fr.specEnvAt(st, nil)
 		env.old = st
